@@ -19,10 +19,14 @@ MANIFEST = dict(
          "through their tie to the constants used and must satisfy |s^2+c^2-1| <= 1e-9; (2) the Euler core and the zxz rotation terms are "
          "compared with the astrolib definition; the asin argument must "
          "be clamped on both sides; the output longitude is a positive-offset modulo 2pi (range [0,360)); (3) the six wrappers map to "
-         "selectors 1..6 and forward epoch and dtype; (4) unit-vector conversions and their range fold carry the units of the chosen "
+         "selectors 1..6 and forward epoch and dtype, and each wrapper evaluated to terms for either epoch uses the rotation constants of its own "
+         "selector in that epoch; (4) unit-vector conversions and their range fold carry the units of the chosen "
          "option; SDSS node/pole constants and formulas; range checks raise; (5) longitude shifting: the evaluated result of shiftlon for a "
          "negative / non-negative / absent shift is split into guarded cases and each case is shown by interval reasoning to lie in the "
-         "documented interval (open at 360) and to differ from lon - shift by whole turns; the range-fold loops are checked by one symbolic step.",
+         "documented interval (open at 360) and to differ from lon - shift by whole turns (a result dispatched on the value of the shift is decided "
+         "per alternative for the shifts that reach it, zero included); the range-fold loops are checked by one symbolic step; the pair fold "
+         "behind sdss2eq, specialised to latitudes in [-90,90] by interval reasoning, keeps the latitude and changes the longitude by whole turns "
+         "only, except for latitudes its guards confine to the poles (solution set of the guards computed, within 1e-9 degree on the sky).",
     note="Not decided: 1e-5 / 1e-9 degree tolerances, isometry numerically; B1950 ecliptic<->galactic constants are not documented in "
          "the source (relations only). Trusted: sympy normaliser, mpmath.",
     technique="static analysis: literal-table validation in exact/high-precision arithmetic, abstract interpretation over a symbolic term domain with normal-form comparison",
@@ -40,7 +44,7 @@ WRAPPERS = {"eq2gal": 1, "gal2eq": 2, "eq2ec": 3, "ec2eq": 4, "ec2gal": 5, "gal2
 
 # rules that keep their verdict however the code is laid out (decided by term equality, effect analysis or dominance over
 # resolved calls); every other rule of this check is a template rule (vcheck.core.Check.obt)
-SEMANTIC = ('R09.1', 'R09.3', 'R09.6', 'R09.8')
+SEMANTIC = ('R09.1', 'R09.3', 'R09.5::wrapper-term', 'R09.6', 'R09.8')
 
 
 def _load_repo():
@@ -130,6 +134,15 @@ class _Env(symx.Env):
             return self.call(ast.copy_location(ast.Call(func=callee, args=c.args, keywords=c.keywords), c), stmt_level)
         if nm in ("hasattr", "isscalar") and ("call:" + nm) in self.se.assume:
             return self.se.assume["call:" + nm]
+        if nm == "isclose" and _np_full(self, f) == "numpy.isclose" and len(c.args) >= 2 and all(k.arg in ("rtol", "atol", "equal_nan") for k in c.keywords):
+            # the documented meaning of the library function, as a term:  |a - b| <= atol + rtol |b|  (defaults 1e-5, 1e-8)
+            a, b = self.ev(c.args[0]), self.ev(c.args[1])
+            rtol = self.ev(c.args[2]) if len(c.args) > 2 else (self.ev(kwarg(c, "rtol")) if kwarg(c, "rtol") is not None else sp.Rational(1, 10 ** 5))
+            atol = self.ev(c.args[3]) if len(c.args) > 3 else (self.ev(kwarg(c, "atol")) if kwarg(c, "atol") is not None else sp.Rational(1, 10 ** 8))
+            if all(symx._is_expr(x) for x in (a, b, rtol, atol)):
+                a, b, rtol, atol = [symx._as_expr(x) for x in (a, b, rtol, atol)]
+                rel = sp.Le(sp.Abs(a - b), atol + rtol * sp.Abs(b))
+                return bool(rel) if rel in (sp.true, sp.false) else symx.Mask(rel)
         w = kwarg(c, "where")
         if w is not None and _np_full(self, f):
             return self._masked_ufunc(c, w)
@@ -257,14 +270,15 @@ def run(chk):
     chk.floor = 120
     fi = repo.func(CO + "euler")
     chk.analysed_unit(fi.qualname)
-    eff = euler_core(chk, repo, fi)
+    eff, terms = euler_core(chk, repo, fi)
     tables(chk, repo, fi, eff)
-    wrappers(chk, repo)
+    wrappers(chk, repo, eff, terms)
     rotate(chk, repo)
     unitvec(chk, repo)
     sdss(chk, repo)
     shift(chk, repo)
     folds(chk, repo)
+    fold2(chk, repo)
 
 
 # ---------------------------------------------------------------------------
@@ -581,6 +595,7 @@ def euler_core(chk, repo, fi):
     ai, bi = symx.symbols("ai", "bi")
     d2r = sp.pi / 180
     eff = {}
+    terms = {}
     for ep in ("J2000", "B1950"):
         for sel in range(1, 7):
             tag = "euler[%s,select=%d]" % (ep, sel)
@@ -595,6 +610,7 @@ def euler_core(chk, repo, fi):
                 chk.ob("R09.2", tag + "::returns-pair", False, fi.where(), "expected (lon, lat), got %r" % (r,))
                 continue
             ao, bo = r
+            terms[(ep, sel)] = (ao, bo)
             T = _read_constants(ao, bo, ai, bi)
             eff[(ep, sel)] = T
             if T is None:
@@ -636,7 +652,7 @@ def euler_core(chk, repo, fi):
                 if not eq:
                     eq, _ = symx.equal(inner, lon_arg)
                 chk.ob("R09.2", tag + "::longitude-formula", bool(eq), fi.where(), "lon' = atan2(ctheta cos b sin(a-phi) + stheta sin b, cos b cos(a-phi)) + psi (mod 2pi)")
-    return eff
+    return eff, terms
 
 
 def _bound_args(call, callee):
@@ -655,7 +671,55 @@ def _bound_args(call, callee):
     return out
 
 
-def wrappers(chk, repo):
+def _same_constants(A, B, tol=mp.mpf("1e-12")):
+    return all((_circ(_mpf(A[k]) - _mpf(B[k])) if k in ("psi", "phi") else abs(_mpf(A[k]) - _mpf(B[k]))) <= tol for k in ("psi", "stheta", "ctheta", "phi"))
+
+
+def _wrapper_terms(chk, repo, eff, terms):
+    """R09.5 wrapper-term: each wrapper, evaluated to terms for either value of its epoch option (the call of the Euler core followed
+    into it, however the arguments are passed), is the rotation the Euler core performs for the wrapper's own selector *in that epoch*:
+    the rotation constants read off the wrapper's terms are those of euler(select = n, b1950 = the wrapper's b1950).  A wrapper that
+    drops, fixes or inverts the epoch, or picks another selector, evaluates to the constants of a different (selector, epoch)."""
+    ai, bi = symx.symbols("ai", "bi")
+    se = _Eval(repo)
+    for name, sel in WRAPPERS.items():
+        fi = repo.func(CO + name)
+        for ep in ("J2000", "B1950"):
+            key = "wrapper-term::%s[%s]" % (name, ep)
+            what = "%s(lon, lat, b1950=%s) is the rotation euler() performs for select=%d in epoch %s" % (name, ep == "B1950", sel, ep)
+            want = eff.get((ep, sel))
+            if want is None or len(fi.params) < 2 or "b1950" not in fi.params:
+                chk.ob("R09.5", key, None, fi.where(), what + ": the wrapper has no b1950 option, or the constants of the Euler core could not be read")
+                continue
+            try:
+                r = se.run(fi, {fi.params[0]: ai, fi.params[1]: bi}, {"b1950": ep == "B1950"})
+            except AnalysisError as e:
+                chk.ob("R09.5", key, None, fi.where(), what + ": the wrapper could not be evaluated (%s)" % str(e)[:160])
+                continue
+            if not (isinstance(r, tuple) and len(r) == 2 and all(isinstance(x, sp.Basic) for x in r)):
+                chk.ob("R09.5", key, None, fi.where(), what + ": the wrapper does not evaluate to a (lon, lat) pair of terms: %s" % str(r)[:120])
+                continue
+            if r == terms.get((ep, sel)):
+                chk.ob("R09.5", key, True, fi.where(), what + " (same terms)")
+                continue
+            got = _read_constants(r[0], r[1], ai, bi)
+            if got is None:
+                # e.g. the coordinates exchanged, or something done to the result: not a rotation of (lon, lat) in the shape euler() has
+                chk.ob("R09.5", key, None, fi.where(), what + ": the wrapper's terms do not have the shape of euler()'s output: %s" % str(r)[:160])
+                continue
+            if _same_constants(got, want):
+                eq = all(symx.equal(x, y)[0] for x, y in zip(r, terms[(ep, sel)]))
+                chk.ob("R09.5", key, True if eq else None, fi.where(), what + (" (equal terms)" if eq else ": same rotation constants but the terms differ: %s" % str(r)[:160]))
+                continue
+            other = ["select=%d in epoch %s" % (s2, e2) for (e2, s2), t in sorted(eff.items()) if t is not None and _same_constants(got, t)]
+            chk.ob("R09.5", key, False, fi.where(),
+                   what + ": the rotation constants the call of the Euler core in %s ends up using are %s, not psi=%s stheta=%s ctheta=%s phi=%s%s"
+                   % (name, ", ".join("%s=%s" % (k, mp.nstr(_mpf(got[k]), 12)) for k in ("psi", "stheta", "ctheta", "phi")),
+                      mp.nstr(_mpf(want["psi"]), 12), mp.nstr(_mpf(want["stheta"]), 12), mp.nstr(_mpf(want["ctheta"]), 12), mp.nstr(_mpf(want["phi"]), 12),
+                      (" -- those of %s: the epoch option or the selector does not reach euler()" % " / ".join(other)) if other else ""))
+
+
+def wrappers(chk, repo, eff, terms):
     """each wrapper returns euler(...) with its own two coordinates bound to euler's two coordinate parameters in order, the selector
     parameter bound to the wrapper's number, and its epoch / dtype options bound to euler's -- however the arguments are passed
     (by position or by keyword, directly or through a single-definition temporary)"""
@@ -678,6 +742,7 @@ def wrappers(chk, repo):
             okk = all(o in b and norm(b[o]) == o and o in fi.params for o in ("b1950", "dtype"))
             chk.ob("R09.5", name + "::forwards-epoch-and-dtype", okk, fi.where(), "b1950= and dtype= are forwarded")
         chk.ob("R09.5", name + "::selector", bool(ok), fi.where(), "%s is euler(lon, lat, %d, ...) with its two coordinates in order" % (name, sel))
+    _wrapper_terms(chk, repo, eff, terms)
     # chained = direct is a table property: selectors 5/6 (ec<->gal) must equal the product of 4,1 / 2,3; checked through the
     # documented constants above for J2000; for B1950 the relation is checked numerically on the literal tables
 
@@ -1147,10 +1212,87 @@ def _multiple_of_turn(d, turn=360):
     return all(co.is_integer for co in q.as_coefficients_dict().values())
 
 
+def _restrict(dom, c):
+    """dom narrowed by a guard that compares one parameter symbol of dom with a number (==, !=, <, <=, >, >=); None when the guard is not of
+    that kind or the narrowed domain is not an interval; an empty interval when the guard cannot hold"""
+    if c is sp.true:
+        return dict(dom)
+    if not isinstance(c, (sp.Eq, sp.Ne, sp.Lt, sp.Le, sp.Gt, sp.Ge)):
+        return None
+    syms = [x for x in c.free_symbols]
+    if len(syms) != 1 or syms[0] not in dom:
+        return None
+    x = syms[0]
+    d = sp.expand(c.lhs - c.rhs)
+    co = d.coeff(x)
+    k = sp.simplify(d - co * x)
+    if not (co.is_number and co != 0 and k.is_number and k.is_real):
+        return None
+    bound = -k / co                                 # co (x - bound) (op) 0
+    op = type(c)
+    if co < 0:
+        op = {sp.Lt: sp.Gt, sp.Le: sp.Ge, sp.Gt: sp.Lt, sp.Ge: sp.Le}.get(op, op)
+    iv = dom[x]
+    if op is sp.Eq:
+        new = iv.meet(_Iv(bound, True, bound, True))
+    elif op is sp.Ne:
+        pt = _Iv(bound, True, bound, True)
+        if pt.meet(iv).empty():
+            new = iv
+        elif iv.lo == bound and iv.hi == bound:
+            new = _Iv(1, False, 0, False)
+        elif iv.lo == bound:
+            new = _Iv(iv.lo, False, iv.hi, iv.hc)
+        elif iv.hi == bound:
+            new = _Iv(iv.lo, iv.lc, iv.hi, False)
+        else:
+            return None                              # an interior point removed: not an interval
+    elif op in (sp.Gt, sp.Ge):
+        new = iv.meet(_Iv(bound, op is sp.Ge, sp.oo, False))
+    else:
+        new = iv.meet(_Iv(-sp.oo, False, bound, op is sp.Le))
+    out = dict(dom)
+    out[x] = new
+    return out
+
+
+def _param_split(term, dom, value_sym, guards=()):
+    """[(domain, guards, sub-term)]: a result that is dispatched on the *parameters* (e.g. on whether the shift is zero) before it is computed
+    is split into one sub-term per feasible alternative, each with the parameter's domain narrowed by its guards; a parameter pinned to one
+    number by its guards is replaced by that number.  None when a dispatch guard is not a comparison of one parameter with a number."""
+    if isinstance(term, sp.Piecewise) and any(c is not sp.true and value_sym not in c.free_symbols and c.free_symbols for v, c in term.args):
+        out, before = [], []
+        for v, c in term.args:
+            if c is not sp.true and (value_sym in c.free_symbols or not c.free_symbols):
+                return None
+            d = dom
+            gs = list(guards)
+            for g in [sp.Not(b) for b in before] + [c]:
+                if g is sp.true:
+                    continue
+                alts = g.args if isinstance(g, sp.And) else [g]
+                for a in alts:
+                    d = _restrict(d, a) if d is not None else None
+                    gs.append(a)
+            if d is None:
+                return None
+            before.append(c)
+            if any(iv.empty() for iv in d.values()):
+                continue
+            sub = _param_split(v, d, value_sym, tuple(gs))
+            if sub is None:
+                return None
+            out += sub
+        return out
+    pins = {x: iv.lo for x, iv in dom.items() if x != value_sym and iv.lo == iv.hi and iv.lc and iv.hc}
+    return [(dom, tuple(guards), term.xreplace(pins) if pins and isinstance(term, sp.Basic) else term)]
+
+
 def shift(chk, repo):
     """R09.8: shiftlon(lon, shift, wrap) is evaluated to a term for a negative shift, a non-negative shift, and no shift with / without wrapping;
     with the documented input range lon in [0,360) each guarded case of the term must land in the documented interval, differ from lon - shift by
-    whole turns, and a single 360-degree step must suffice (the shift is reduced modulo 360 first)."""
+    whole turns, and a single 360-degree step must suffice (the shift is reduced modulo 360 first).  A result that is dispatched on the value of
+    the shift (zero / non-zero, ...) is decided alternative by alternative, each for the shifts that reach it: `every shift` includes 0."""
     fi = repo.func(CO + "shiftlon")
     chk.analysed_unit(fi.qualname)
     se = _Eval(repo)
@@ -1169,22 +1311,36 @@ def shift(chk, repo):
     for nm, args, flags, want, target, key, what in confs:
         r = se.run(fi, dict(args), dict(flags))
         terms[nm] = r
-        cr = _case_ranges(r, dom) if isinstance(r, sp.Basic) else None
-        if cr is None:
+        svar = args.get("shift")
+        subdom = {k: v for k, v in dom.items() if k == lon or k == svar}
+        parts = _param_split(r, subdom, lon) if isinstance(r, sp.Basic) else None
+        crs = []
+        for d_, gs, t_ in (parts or []):
+            cr = _case_ranges(t_, d_) if isinstance(t_, sp.Basic) else None
+            if cr is None:
+                crs = None
+                break
+            pins = {x: iv.lo for x, iv in d_.items() if x != lon and iv.lo == iv.hi}
+            crs.append((d_, gs, cr[0], cr[1], want.xreplace(pins)))
+        if not crs:
             unrec.append(nm)
             chk.ob("R09.8", key, None, fi.where(), "%s: the evaluated result is not a value wrapped under comparisons of that value with numbers: %s" % (what, str(r)[:160]))
             continue
-        cases, base = cr
-        bad = [(v, iv) for v, iv, st in cases if not iv.within(target)]
+        bad, shown, wraps = [], [], False
+        for d_, gs, cases, base, want_ in crs:
+            pre = ("for shift in %s (dispatch guard %s): " % (d_[svar], " and ".join(str(g) for g in gs))) if gs and svar is not None else ""
+            bad += [(pre, v, iv) for v, iv, st in cases if not iv.within(target)]
+            shown.append(pre + "; ".join("%s in %s" % (v, iv) for v, iv, st in cases))
+            wraps = wraps or any(st != 0 for v, iv, st in cases)
+            steps += [(nm, st) for v, iv, st in cases if not (st.is_number and (st / 360).is_integer)]
+            congr.append((nm, _multiple_of_turn(base - want_)))
+            rb = _range_of(base, d_)
+            if nm != "wrap":
+                reduced.append((nm, rb is not None and rb.within(_Iv(target.lo - 360, True, target.hi + 360, True)), str(rb)))
         chk.ob("R09.8", key, not bad, fi.where(),
-               "%s (cases: %s)" % (what, "; ".join("%s in %s" % (v, iv) for v, iv, st in cases)))
-        if any(st != 0 for v, iv, st in cases):
+               "%s (cases: %s)%s" % (what, " | ".join(shown), "; outside %s: %s" % (target, "; ".join("%s%s in %s" % b for b in bad)) if bad else ""))
+        if wraps:
             nwrap += 1
-        steps += [(nm, st) for v, iv, st in cases if not (st.is_number and (st / 360).is_integer)]
-        congr.append((nm, _multiple_of_turn(base - want)))
-        rb = _range_of(base, dom)
-        if nm != "wrap":
-            reduced.append((nm, rb is not None and rb.within(_Iv(target.lo - 360, True, target.hi + 360, True)), str(rb)))
     some = len(unrec) < len(confs)
     chk.ob("R09.8", "shiftlon::three-wraps", (nwrap == 3) if not unrec else None, fi.where(),
            "each of the three configurations (negative shift, non-negative shift, wrap without shift) wraps (%d of 3%s)" % (nwrap, "; not recognised: %s" % unrec if unrec else ""))
@@ -1333,3 +1489,287 @@ def folds(chk, repo):
     chk.ob("R09.8", "atbound::fold-structure", ok, fi.where(),
            "range fold: add 360 while below the minimum, subtract 360 while above the maximum (loop conditions recomputed each step): %s%s"
            % ("; ".join(t for v in found.values() for _, t in v), ("; not recognised: " + "; ".join(unrec)) if unrec else ""))
+
+
+# ---------------------------------------------------------------------------
+# the fold of a (latitude, longitude) pair: a pair that is already in range is a fixed point, except for the longitude at the poles
+def _is_fold(e):
+    return isinstance(e, sp.Function) and type(e).__name__ == "atbound" and len(e.args) == 3
+
+
+def _iv_abs(iv):
+    if iv.lo >= 0:
+        return iv
+    if iv.hi <= 0:
+        return iv.scale(-1)
+    a, b = -iv.lo, iv.hi
+    if a > b or (a == b and iv.lc):
+        return _Iv(0, True, a, iv.lc)
+    return _Iv(0, True, b, iv.hc)
+
+
+def _range2(e, dom):
+    """interval of a linear combination of: symbols with a known range, |x|, and the opaque range fold atbound(x, lo, hi) (x itself when x is
+    within [lo, hi]: the fold moves only elements outside the bounds; [lo, hi] when the bounds are a full turn apart); None when not known"""
+    e = sp.expand(e)
+    out = _Iv(0, True, 0, True)
+    for atom, co in e.as_coefficients_dict().items():
+        if not (co.is_number and co.is_real):
+            return None
+        if atom == 1:
+            iv = _Iv(co, True, co, True)
+        else:
+            if atom in dom:
+                base = dom[atom]
+            elif isinstance(atom, sp.Abs):
+                inner = _range2(atom.args[0], dom)
+                if inner is None:
+                    return None
+                base = _iv_abs(inner)
+            elif _is_fold(atom) and atom.args[1].is_number and atom.args[2].is_number:
+                inner = _range2(atom.args[0], dom)
+                box = _Iv(atom.args[1], True, atom.args[2], True)
+                if inner is not None and inner.within(box):
+                    base = inner
+                elif atom.args[2] - atom.args[1] >= 360:
+                    base = box
+                else:
+                    return None
+            else:
+                return None
+            iv = base.scale(co)
+        out = out.add(iv)
+    return out
+
+
+def _decide(c, dom):
+    """truth of a comparison for every value in the domain: True / False / None (depends on the value, or not known)"""
+    if c is sp.true or c is sp.false:
+        return bool(c)
+    if isinstance(c, sp.Not):
+        r = _decide(c.args[0], dom)
+        return None if r is None else (not r)
+    if not isinstance(c, (sp.Eq, sp.Ne, sp.Lt, sp.Le, sp.Gt, sp.Ge)):
+        return None
+    iv = _range2(c.lhs - c.rhs, dom)
+    if iv is None:
+        return None
+    zero = _Iv(0, True, 0, True)
+    has0 = not iv.meet(zero).empty()
+    only0 = iv.lo == 0 and iv.hi == 0
+    if isinstance(c, (sp.Eq, sp.Ne)):
+        r = True if only0 else (False if not has0 else None)
+        return r if (r is None or isinstance(c, sp.Eq)) else (not r)
+    pos = iv.lo > 0 or (iv.lo == 0 and not iv.lc)          # every value > 0
+    nonneg = iv.lo >= 0
+    neg = iv.hi < 0 or (iv.hi == 0 and not iv.hc)
+    nonpos = iv.hi <= 0
+    if isinstance(c, sp.Gt):
+        return True if pos else (False if nonpos else None)
+    if isinstance(c, sp.Ge):
+        return True if nonneg else (False if neg else None)
+    if isinstance(c, sp.Lt):
+        return True if neg else (False if nonneg else None)
+    return True if nonpos else (False if pos else None)
+
+
+def _unfold_in_range(e, dom):
+    """e with every range fold of a value that is within the fold's bounds taken off (there the fold does nothing)"""
+    def fix(x):
+        inner = _range2(x.args[0], dom)
+        if inner is not None and x.args[1].is_number and x.args[2].is_number and inner.within(_Iv(x.args[1], True, x.args[2], True)):
+            return x.args[0]
+        return x
+    for _ in range(6):
+        new = e.replace(_is_fold, fix)
+        if new == e:
+            break
+        e = new
+    return e
+
+
+def _strip_folds(e):
+    """e with every range fold taken off: the fold moves by whole turns only (rule atbound::fold-structure)"""
+    for _ in range(6):
+        new = e.replace(_is_fold, lambda x: x.args[0])
+        if new == e:
+            break
+        e = new
+    return e
+
+
+def _resolve(c, dom):
+    """the guard with every comparison that holds / fails for the whole domain replaced by true / false (and, or, not, if-then-else folded)"""
+    c = sp.sympify(c)
+    if isinstance(c, sp.ITE):
+        a = _resolve(c.args[0], dom)
+        if a is sp.true:
+            return _resolve(c.args[1], dom)
+        if a is sp.false:
+            return _resolve(c.args[2], dom)
+        return sp.Or(sp.And(a, _resolve(c.args[1], dom)), sp.And(sp.Not(a), _resolve(c.args[2], dom)))
+    if isinstance(c, (sp.And, sp.Or)):
+        return type(c)(*[_resolve(a, dom) for a in c.args])
+    if isinstance(c, sp.Not):
+        return sp.Not(_resolve(c.args[0], dom))
+    r = _decide(c, dom)
+    return c if r is None else (sp.true if r else sp.false)
+
+
+def _literals(conds, dom):
+    """the guards as a list of conjuncts, resolved over the domain; None when they cannot hold"""
+    out = []
+    for c in conds:
+        c = _resolve(c, dom)
+        if c is sp.false:
+            return None
+        if c is sp.true:
+            continue
+        out += list(c.args) if isinstance(c, sp.And) else [c]
+    return out
+
+
+def _pair_cases(T, P, dom):
+    """[(undecided guards, T, P)]: the feasible guarded cases of the pair under the domain, with folds of in-range values taken off and guards
+    that hold / fail for the whole domain resolved"""
+    def settle(e):
+        # folds of in-range values taken off, then the guards of every case split resolved over the domain (if-then-else guards spelled out)
+        for _ in range(4):
+            e = _unfold_in_range(e, dom)
+            new = e.replace(lambda x: isinstance(x, sp.Piecewise), lambda x: sp.Piecewise(*[(v, _resolve(c, dom)) for v, c in x.args]))
+            if new == e:
+                break
+            e = new
+        return e
+    pair = sp.Tuple(settle(T), settle(P))
+    out = []
+    for conds, v in _guarded_cases(pair):
+        keep = _literals([_unfold_in_range(sp.sympify(c), dom) for c in conds], dom)
+        if keep is None:
+            continue
+        v = sp.Tuple(*[_unfold_in_range(x, dom) for x in v])
+        if any(isinstance(x, sp.Piecewise) for t in v for x in sp.preorder_traversal(t)):
+            # a guard taken off a fold opened a new case split: go round again
+            sub = _pair_cases(v[0], v[1], dom)
+            out += [(keep + k2, t2, p2) for k2, t2, p2 in sub]
+            continue
+        out.append((keep, v[0], v[1]))
+    return out
+
+
+def _solution_set(conds, x, lo, hi):
+    """the set of x in [lo, hi] satisfying every guard (each a comparison in x alone), or None"""
+    S = sp.Interval(lo, hi)
+    for c in conds:
+        c = sp.nsimplify(c, rational=True) if c.atoms(sp.Float) else c
+        if c.free_symbols != {x}:
+            return None
+        try:
+            if isinstance(c, sp.Or):
+                part = sp.Union(*[sp.solveset(a, x, sp.Interval(lo, hi)) for a in c.args])
+            else:
+                part = sp.solveset(c, x, sp.Interval(lo, hi))
+        except Exception:
+            return None
+        if isinstance(part, sp.ConditionSet) or part.has(sp.ConditionSet) or part.has(sp.ImageSet):
+            return None
+        S = S.intersect(part)
+    return S
+
+
+def _min_abs(S):
+    """inf of |x| over the set (a union of intervals and points), or None"""
+    if S is sp.S.EmptySet:
+        return None
+    try:
+        if S.contains(0) == sp.true:
+            return sp.Integer(0)
+        parts = S.args if isinstance(S, sp.Union) else [S]
+        best = None
+        for p_ in parts:
+            ends = list(p_) if isinstance(p_, sp.FiniteSet) else [p_.inf, p_.sup]
+            if isinstance(p_, sp.Interval) and p_.inf < 0 < p_.sup:
+                ends.append(sp.Integer(0))
+            for e in ends:
+                if best is None or abs(e) < best:
+                    best = abs(e)
+        return best
+    except Exception:
+        return None
+
+
+def fold2(chk, repo):
+    """R09.8 atbound2(latitude, longitude), the fold sdss2eq hands its result to.  sdss2eq is the inverse of eq2sdss to 1e-9 degree only if the
+    fold does not move the point: for a latitude already within [-90, 90] (sdss2eq's is an arcsine) the latitude comes back as it is and the
+    longitude changes by whole turns only -- except where the longitude means nothing, at |latitude| = 90 exactly.  The function is evaluated
+    to terms (the one-dimensional fold opaque: it moves by whole turns and leaves in-range values alone), specialised to latitude in [-90, 90]
+    by interval reasoning, and every remaining guarded case is inspected: if the longitude is replaced, the guards must confine the latitude to
+    the poles (to within the 1e-9 degree the property allows on the sky: the set of latitudes the guards admit is computed, not sampled)."""
+    if not repo.has(CO + "atbound2"):
+        return
+    fi = repo.func(CO + "atbound2")
+    chk.analysed_unit(fi.qualname)
+    key = "atbound2::in-range-pair-is-kept-except-at-the-poles"
+    what = "for a latitude within [-90,90] the pair fold returns the latitude unchanged and the longitude up to whole turns, except at |latitude| = 90 exactly"
+    params = [p for p in fi.params if not p.startswith("*")]
+    if len(params) != 2:
+        chk.ob("R09.8", key, None, fi.where(), what + ": the fold does not take a (latitude, longitude) pair")
+        return
+    T0, P0 = sp.Symbol("lat", real=True), sp.Symbol("lon", real=True)
+    dom = {T0: _Iv(-90, True, 90, True)}
+    se = _Eval(repo, opaque={CO + "atbound"})
+    try:
+        se.run(fi, {params[0]: T0, params[1]: P0}, {})
+        Tf, Pf = se.last_env.vars.get(params[0]), se.last_env.vars.get(params[1])
+    except AnalysisError as e:
+        chk.ob("R09.8", key, None, fi.where(), what + ": the fold could not be evaluated (%s)" % str(e)[:200])
+        return
+    if not (isinstance(Tf, sp.Basic) and isinstance(Pf, sp.Basic)):
+        chk.ob("R09.8", key, None, fi.where(), what + ": the folded pair is not a pair of terms")
+        return
+    try:
+        cases = _pair_cases(Tf, Pf, dom)
+    except Exception as e:
+        chk.ob("R09.8", key, None, fi.where(), what + ": case split failed (%s)" % str(e)[:120])
+        return
+    tol = sp.Rational(1, 10 ** 9)
+    verdict, shown = True, []
+    for conds, T, P in cases:
+        S = _solution_set(conds, T0, -90, 90)
+        if S is sp.S.EmptySet:
+            continue
+        lat_kept = sp.simplify(T - T0) == 0
+        lon_kept = _multiple_of_turn(sp.expand(_strip_folds(P) - P0))
+        desc = "where %s: (lat, lon) -> (%s, %s)" % (" and ".join(str(c) for c in conds) or "always", T, P)
+        if lat_kept and lon_kept:
+            shown.append(desc + " kept")
+            continue
+        if S is None:
+            verdict = None if verdict is not False else False
+            shown.append(desc + ": NOT RECOGNISED (the guards are not comparisons of the latitude with numbers)")
+            continue
+        m = _min_abs(S)
+        if m is None:
+            verdict = None if verdict is not False else False
+            shown.append(desc + ": NOT RECOGNISED (latitudes admitted: %s)" % S)
+            continue
+        if not lat_kept:
+            # the latitude itself is changed for in-range latitudes S
+            off = sp.simplify(T - T0)
+            if off.is_number and S != sp.S.EmptySet:
+                verdict = False
+                shown.append(desc + ": MOVES THE LATITUDE by %s for latitudes %s" % (off, S))
+            else:
+                verdict = None if verdict is not False else False
+                shown.append(desc + ": NOT RECOGNISED (latitude changed)")
+            continue
+        # the longitude is replaced: by up to 2 (90 - |lat|) degrees on the sky
+        if 2 * (90 - m) > tol:
+            verdict = False
+            shown.append(desc + ": REPLACES THE LONGITUDE for latitudes %s, i.e. up to %s degree away from the pole (moves the point by up to %s degree on the sky; "
+                         "only |lat| = 90 exactly has no longitude)" % (S, sp.N(90 - m, 6), sp.N(2 * (90 - m), 6)))
+        else:
+            shown.append(desc + " at the poles only (%s)" % S)
+    if not cases:
+        verdict = None
+    chk.ob("R09.8", key, verdict, fi.where(), what + ": " + "; ".join(shown)[:1400])
